@@ -298,6 +298,16 @@ func extTypeUndetermined(ll gtab.LookupList) bool {
 
 const keyExtType = "ext-type:undetermined"
 
+// keyNilList: a nil ScriptList, FeatureList or LookupList next to non-empty
+// other lists is written as a NULL offset, and the reader then drops the
+// other lists (or rejects the table).
+const keyNilList = "nil-list:content-lost"
+
+func nilListWithContent(x *gtab.Info) bool {
+	return (x.ScriptList == nil || x.FeatureList == nil || x.LookupList == nil) &&
+		len(x.ScriptList)+len(x.FeatureList)+len(x.LookupList) > 0
+}
+
 // siteKey chooses the known-findings key for corrupt output.
 func siteKey(c *infoCase, clause string) string {
 	if len(c.overflow) > 0 {
@@ -305,6 +315,9 @@ func siteKey(c *infoCase, clause string) string {
 	}
 	if len(c.sites) > 0 && extTypeUndetermined(c.info.LookupList) {
 		return keyExtType
+	}
+	if nilListWithContent(c.info) {
+		return keyNilList
 	}
 	for _, s := range c.sites {
 		if s == lookups.SiteSubtableOffset || s == lookups.SiteLookupOffset {
@@ -416,7 +429,11 @@ func genInfoCase(t *rapid.T) *infoCase {
 		Kind: kind, Mode: mode, MinLookups: -1, MaxLookups: 8, Size: size,
 		Skip: skipSite, Unimplemented: true, EmptyLookups: true,
 	}
-	r := lookups.GenInfo(env, opt, lookups.InfoOptions{Size: isize, NilLists: true}).Draw(t, "info")
+	nilLists := !stats.IsListed(prop, keyNilList)
+	if !nilLists {
+		stats.Excluded(keyNilList)
+	}
+	r := lookups.GenInfo(env, opt, lookups.InfoOptions{Size: isize, NilLists: nilLists}).Draw(t, "info")
 	c := &infoCase{kind: kind, info: r.Info, overflow: r.Overflow, sites: r.Sites, classes: r.Classes, desc: r.Desc}
 	if len(c.sites) > 0 && len(c.overflow) == 0 && extTypeUndetermined(c.info.LookupList) && stats.IsListed(prop, keyExtType) {
 		// excluded by construction: add a lookup that tells GSUB from GPOS
